@@ -127,7 +127,36 @@ def oracle_c03(tables, seed, tier, deep):
                     bad = (site_of(d[0]), d[1])
         if bad:
             viol.append({"site": "shape:" + bad[0], "detail": bad[1], "cfg": c.s(), "cli_flags": c.cli(), "input": cs.text, "output": t})
-    return result(viol, len(pairs), len(distinct), "grammar lines + other-component lines + arbitrary operator trees x flag sets without --redactFieldNames; distinct = distinct input lines; non-trivial = parsed object without duplicate keys",
+    # streams that end in a failure: whatever reached the output must still consist of whole, valid JSON lines
+    rng = SplitMix(seed ^ 0x303)
+    sops = []
+    good = [cs.text.encode() for cs in cases[:60] if "\n" not in cs.text]
+    for i in range(12 if (tier == "thorough" or deep) else 5):
+        k = [3, 12, 25, 40, 60][i % 5]
+        body = good[:k]
+        tail = [b'{"a":"' + b"y" * 70000 + b'"}', b'{"a":"' + b"y" * 66000][i % 2]
+        data = b"\n".join(body + [tail] + good[:3]) + b"\n"
+        sops.append(("t%d" % i, ["stream", Cfg().s(), "-", hx(data)]))
+        sops.append(("r%d" % i, ["stream", Cfg().s(), "c4096,r%d" % (len(b"\n".join(body)) - rng.below(50)), hx(b"\n".join(body) + b"\n")]))
+    sres = go_exec(sops)
+    for oid, f in sops:
+        p = sres.get(oid, "noanswer x").split(" ")
+        dist["failing-stream:" + p[0]] += 1
+        try:
+            out = unhxb(p[1])
+        except Exception:
+            continue
+        if out and not out.endswith(b"\n"):
+            viol.append({"site": "stream:failure:torn-last-line", "detail": "the run ended with status %s and the output ends in the middle of a line: ...%r" % (p[0], out[-80:]), "cfg": Cfg().s(), "faults": f[2], "input_hex": f[3][:4000]})
+            continue
+        for ln in out.split(b"\n")[:-1]:
+            try:
+                o = parse_json(ln.decode("utf-8"))
+                assert isinstance(o, Obj)
+            except Exception as e:
+                viol.append({"site": "stream:failure:invalid-line", "detail": "status %s, an emitted line is not a JSON object: %r" % (p[0], ln[:120]), "cfg": Cfg().s(), "faults": f[2], "input_hex": f[3][:4000]})
+                break
+    return result(viol, len(pairs) + len(sops), len(distinct), "grammar lines + other-component lines + arbitrary operator trees x flag sets without --redactFieldNames; distinct = distinct input lines; non-trivial = parsed object without duplicate keys; plus streams that fail part-way (over-long line after 3..60 lines, read error): every emitted physical line must still be a whole JSON object",
                   dist, [pairs[0][0].text[:400]] if pairs else [])
 
 
@@ -518,6 +547,9 @@ def replay(pid, r):
         out = {"flags": [n for n in FLAG_NAMES if f[n]], "well_defined_by_rule_table": wd, "exit": rc, "files_created": created, "requests": len(fake.log), "stderr": se.decode("utf-8", "replace")[-300:]}
         out["violation"] = (wd and rc != 0) or (not wd and (rc == 0 or bool(created) or len(fake.log) > 0))
         return out
+    if "soak_n" in r:
+        res = go_exec([("s", ["soak", r["cfg"], str(r["soak_n"])])], timeout=1800).get("s", "noanswer")
+        return {"soak": res[:300], "violation": not res.startswith("ok ")}
     if "session_before_hex" in r:
         ops = [("b%d" % i, ["line", r["cfg"], h]) for i, h in enumerate(r["session_before_hex"])] + [("x", ["line", r["cfg"], hx(r["input"])])]
         ses = go_exec(ops).get("x", "noanswer")
@@ -603,7 +635,14 @@ def run_cli_combo(bits, fake_url, workdir):
     env = {"VERIF_ATLAS_ENDPOINT": fake_url, "TMPDIR": os.path.join(d, "w")}
     env["ATLAS_PUBLIC_KEY"] = "pubkey" if f["env"] else ""
     env["ATLAS_PRIVATE_KEY"] = "privkey" if f["env"] else ""
-    stdin = open(inp, "rb").read() if f["stdin"] else None
+    # "stdin is an input source" = stdin is not a terminal-like device: a pipe with data, a redirected regular file, an EMPTY
+    # redirected regular file (a just-rotated log) and an empty pipe all count
+    stdin = None
+    if f["stdin"]:
+        kind = int(bits, 2) % 4
+        empty = os.path.join(d, "empty.log")
+        open(empty, "wb").close()
+        stdin = [open(inp, "rb").read(), ("file", inp), ("file", empty), b""][kind]
     rc, so, se = run_cli(args, stdin=stdin, env=env, cwd=scratch, timeout=60)
     created = sorted(os.listdir(scratch))
     shutil.rmtree(d, ignore_errors=True)
@@ -677,7 +716,7 @@ def oracle_c18(tables, seed, tier, deep):
     finally:
         fake.close()
         shutil.rmtree(work, ignore_errors=True)
-    res = result(viol, len(combos), len(combos), "real CLI started once per presence/absence combination of the 13 facts (scratch directory, fake Atlas endpoint, pipe or /dev/null on stdin); exit status, files created, requests received and stderr compared with the rule table; " + ("all 8192 combinations" if big else "seeded sample + every sampled neighbour of a well-defined job"),
+    res = result(viol, len(combos), len(combos), "real CLI started once per presence/absence combination of the 13 facts (scratch directory, fake Atlas endpoint; stdin = /dev/null, or a pipe with data / a redirected file / an empty redirected file / an empty pipe); exit status, files created, requests received and stderr compared with the rule table; " + ("all 8192 combinations" if big else "seeded sample + every sampled neighbour of a well-defined job"),
                  dist, [{"bits": combos[0], "flags": [n for n, c in zip(FLAG_NAMES, combos[0]) if c == "1"]}])
     if big:
         res["stats"]["exhaustive"] = True
@@ -986,6 +1025,14 @@ def oracle_c08(tables, seed, tier, deep):
                 pass
             if not whole_line_prefix(body, [e for e in exp if e]):
                 viol.append({"site": "fault:%s:not-a-prefix" % kind, "detail": "bytes written before the fault are not a whole-line prefix of the fault-free output", "cfg": cfg.s(), "input_hex": hx(data), "faults": f[2]})
+    # every write fails, inputs of 1..N copies of one line: whatever the total size, the failure must be reported
+    for L, maxn in ((60, 1200 if big else 1200), (400, 400), (3000, 60)):
+        line = to_json(Obj([("c", "COMMAND"), ("attr", Obj([("ns", "d.c"), ("command", Obj([("find", "c"), ("filter", Obj([("a", "x" * L)]))]))]))]))
+        res = go_exec([("w", ["wsweep", cfg.s(), hx(line), str(maxn)])]).get("w", "noanswer")
+        n += maxn
+        dist["write-fault-size-sweep:" + res.split(" ")[0]] += 1
+        if not res.startswith("ok "):
+            viol.append({"site": "fault:w:reported-ok:size-sweep", "detail": "every write fails, input = n copies of one line: success reported for n in %s" % res[:200], "cfg": cfg.s(), "input": line})
     # whole program: real devices and damaged gzip streams
     work = tempfile.mkdtemp(prefix="verif_c08_")
     try:
@@ -1049,13 +1096,70 @@ def oracle_c08(tables, seed, tier, deep):
             dist["gz-flip:%d" % (rc != 0)] += 1
             if rc == 0 and so != b"".join(exp):
                 viol.append({"site": "gzip:flip:exit0", "detail": "bit flipped at byte %d: exit status 0 with output different from the fault-free output" % k, "input_hex": hx(bytes(b))})
+        # concatenated (multi-member) gzip input damaged at and around every member boundary
+        parts = [lines[:3], lines[3:5], lines[5:]]
+        members = [gzip.compress(b"\n".join(p) + b"\n") for p in parts if p]
+        whole = b"".join(members)
+        full = b"".join(exp)
+        bounds = []
+        off = 0
+        for mb in members[:-1]:
+            off += len(mb)
+            bounds.append(off)
+        fz = os.path.join(work, "multi.log.gz")
+        open(fz, "wb").write(whole)
+        rc, so, se = run_cli(["redact", fz], cwd=work)
+        n += 1
+        if rc != 0 or so != full:
+            viol.append({"site": "gzip:multi-member:intact", "detail": "an intact concatenation of %d gzip members: exit %d, output %s the fault-free output" % (len(members), rc, "equals" if so == full else "differs from"), "input_hex": hx(whole)})
+        for B in bounds:
+            damaged = []
+            for d in range(1, 14):
+                damaged.append(("cut+%d" % d, whole[:B + d]))
+            for d in range(0, 10):
+                for bit in (0, 3, 7):
+                    b = bytearray(whole)
+                    b[B + d] ^= 1 << bit
+                    damaged.append(("flip+%d.%d" % (d, bit), bytes(b)))
+            for ln in (1, 2, 4, 32):
+                damaged.append(("zero%d" % ln, whole[:B] + b"\x00" * ln + whole[B + ln:]))
+                damaged.append(("garbage%d" % ln, whole[:B] + b"\x00" * ln))
+            for d in range(1, 9):
+                damaged.append(("cut-%d" % d, whole[:B - d]))
+            for name, blob in damaged:
+                open(fz, "wb").write(blob)
+                rc, so, se = run_cli(["redact", fz], cwd=work)
+                n += 1
+                dist["gz-member-boundary:%d" % (rc != 0)] += 1
+                if rc == 0 and so != full:
+                    viol.append({"site": "gzip:member-boundary:exit0", "detail": "multi-member gzip damaged at a member boundary (%s at offset %d of %d): exit status 0 with %d of %d output bytes" % (name, B, len(whole), len(so), len(full)), "input_hex": hx(blob)})
+                elif not whole_line_prefix(so, explines):
+                    viol.append({"site": "gzip:member-boundary:not-a-prefix", "detail": "multi-member gzip damaged (%s at %d): output is not a whole-line prefix" % (name, B), "input_hex": hx(blob)})
     finally:
         shutil.rmtree(work, ignore_errors=True)
-    return result(viol, n, n, "fault injection: the k-th read fails (sampled k, chunked reads), the k-th write fails or is short (every k), in-process; /dev/full as stdout and as --outputFile, a closed pipe, gzip streams cut at sampled byte offsets and with flipped bits through the real CLI; status must be an error iff a fault was reached, bytes written must be a whole-line prefix of the fault-free output",
+    return result(viol, n, n, "fault injection: the k-th read fails (sampled k, chunked reads), the k-th write fails or is short (every k), in-process; /dev/full as stdout and as --outputFile, a closed pipe, gzip streams cut at sampled byte offsets and with flipped bits, and concatenated gzip members cut / flipped / zeroed at and around every member boundary, through the real CLI; status must be an error iff a fault was reached, bytes written must be a whole-line prefix of the fault-free output",
                   dist, [{"fault": "r17"}])
 
 
-ORACLES["C06"] = oracle_c06
+def with_lsweep(fn):
+    def wrapped(tables, seed, tier, deep):
+        r = fn(tables, seed, tier, deep)
+        big = tier == "thorough" or deep
+        lens = sorted(set([k * 512 + d for k in range(1, 129) for d in (-1, 0, 1)] + list(range(9, 300, 7)) + ([k * 64 for k in range(1, 1023)] if big else [])))
+        lens = [x for x in lens if 9 <= x < 65530]
+        res = go_exec([("l", ["lsweep", Cfg().s(), ",".join(map(str, lens))])], timeout=1800).get("l", "noanswer")
+        if not res.startswith("ok "):
+            r["violations"] = result(r["violations"] + [{"site": "final-newline:last-line-length-sweep", "cfg": Cfg().s(),
+                "detail": "a log whose last line is exactly n bytes long gives different output with and without the final newline (or with CRLF): " + res[:300], "input": ""}], 0, 0, "", {}, [])["violations"]
+            r["stats"]["summary"]["violating_sites"] = len(r["violations"])
+        r["stats"]["evaluations"] += 6 * len(lens)
+        r["stats"]["summary"]["evaluations"] = r["stats"]["evaluations"]
+        r["stats"]["rule"] += "; plus a sweep over the byte length of an unterminated last line (%d lengths: every multiple of 512 up to the reader limit and its neighbours, read whole / in 4096- and 512-byte chunks): output with and without the final LF / CRLF must be identical" % len(lens)
+        return r
+    return wrapped
+
+
+ORACLES["C06"] = with_lsweep(oracle_c06)
 ORACLES["C08"] = oracle_c08
 
 
@@ -1133,6 +1237,34 @@ def oracle_c09(tables, seed, tier, deep):
                 dist["wrongkey:%d" % (rc != 0)] += 1
                 if rc == 0:
                     viol.append({"site": "wrongkey:accepted", "detail": "ciphertext accepted under a different key: %r" % so[-80:], "input": s[:100]})
+        # long values, one per line, several lines per run in different orders (sizes around powers of two; every line below the 64 KiB limit)
+        sizes = [4095, 4096, 4097, 8191, 8192, 8193, 9000, 12288, 16383, 16384, 16385, 20000, 32768, 40000, 60000, 300, 0, 5]
+        if os.path.exists(key):
+            kraw = base64.b64decode(open(key, "rb").read().strip())
+            orders = [sizes, list(reversed(sizes)), [20000, 5, 60000, 4097, 9000, 0, 16385, 300]]
+            for oi, order in enumerate(orders if big else orders[:2] + orders[2:]):
+                vals = [("L%d." % oi) + "".join(chr(0x61 + (j * 7 + k) % 26) for j in range(k)) for k in order]
+                inp2 = os.path.join(work, "long%d.log" % oi)
+                with open(inp2, "w", encoding="utf-8") as f:
+                    for v in vals:
+                        f.write(to_json(Obj([("c", "COMMAND"), ("attr", Obj([("ns", "d.c"), ("command", Obj([("insert", "c"), ("documents", [Obj([("text", v)])])]))]))])) + "\n")
+                out2 = os.path.join(work, "long%d.out" % oi)
+                rc, so, se = run_cli(["redact", inp2, "-o", out2, "--encrypt", "--encryptionKeyFile", key], cwd=work)
+                n += 1
+                got = [parse_json(l) for l in open(out2, encoding="utf-8").read().splitlines()] if rc == 0 and os.path.exists(out2) else []
+                if len(got) != len(vals):
+                    viol.append({"site": "cli:long-values-run-failed", "detail": "exit %d, %d of %d lines; %s" % (rc, len(got), len(vals), se[-200:].decode("utf-8", "replace")), "input": "value lengths %r" % order})
+                    continue
+                cts = [get_path(o, ("attr", "command", "documents"))[0].get("text") for o in got]
+                res = go_exec([(str(i), ["dec", hx(kraw), hx(base64.b64decode(ct))]) for i, ct in enumerate(cts)])
+                for i, v in enumerate(vals):
+                    n += 1
+                    dist["long-roundtrip"] += 1
+                    r = res[str(i)].split(" ")
+                    if r[0] != "ok" or unhxb(r[1]) != v.encode():
+                        back = unhxb(r[1]) if r[0] == "ok" else b""
+                        viol.append({"site": "roundtrip:long-value", "detail": "a %d-byte value (position %d of lengths %r in one run) decrypts to %d bytes (%s)" % (
+                            len(v), i, order, len(back), "a prefix of the original" if back and v.encode().startswith(back) else res[str(i)][:60]), "input": v[:80] + "..."})
     finally:
         shutil.rmtree(work, ignore_errors=True)
     # API level, more volume
@@ -1222,7 +1354,67 @@ def oracle_c10(tables, seed, tier, deep):
     for (cs, b), y1, y2 in zip(sample, re_[:40], again):
         if y1 != y2:
             viol.append({"site": "nondeterministic:process", "detail": "two separate processes produced different encrypt-mode output", "cfg": b.s(), "input": cs.text})
-    return result(viol, 3 * len(trip) + len(ops), dist["ciphertext"], "grammar lines with repeated literals under placeholder mode, encrypt mode (real AES-SIV key) and encrypt mode with unusable 10-byte key material; leaf-wise: equal, or placeholder in one and a ciphertext decrypting to the input leaf in the other; equal plaintexts <-> equal ciphertexts across lines and processes; distinct_nontrivial = ciphertext leaves decrypted and compared",
+    # separate runs of the real CLI with ONE key reaching it in different ways: a regular file, a symbolic link to it, a FIFO
+    # (process substitution), a path through a symlinked directory - the ciphertexts must be the same, or the run must fail
+    import tempfile, shutil, threading
+    work = tempfile.mkdtemp(prefix="verif_c10_")
+    extra = 0
+    try:
+        inp = os.path.join(work, "in.log")
+        open(inp, "w", encoding="utf-8").write("\n".join(cs.text for cs, a, b, c in trip[:6] if "\n" not in cs.text) + "\n")
+        os.mkdir(os.path.join(work, "kd"))
+        reg = os.path.join(work, "kd", "k.key")
+        open(reg, "wb").write(base64.b64encode(HARNESS_KEY))
+        os.symlink(reg, os.path.join(work, "link.key"))
+        os.symlink(os.path.join(work, "kd"), os.path.join(work, "kdlink"))
+        fifo = os.path.join(work, "fifo.key")
+        os.mkfifo(fifo)
+        outs = {}
+        for how, path in (("regular", reg), ("symlink", os.path.join(work, "link.key")), ("dir-symlink", os.path.join(work, "kdlink", "k.key")), ("fifo", fifo), ("regular-again", reg)):
+            outp = os.path.join(work, "out-" + how)
+            th = None
+            if how == "fifo":
+                def feed():
+                    try:
+                        with open(fifo, "wb") as fh:      # blocks until the tool opens the pipe for reading
+                            fh.write(base64.b64encode(HARNESS_KEY))
+                    except OSError:
+                        pass
+                th = threading.Thread(target=feed, daemon=True)
+                th.start()
+            try:
+                rc, so, se = run_cli(["redact", inp, "-o", outp, "--encrypt", "--encryptionKeyFile", path], cwd=work, timeout=20)
+            except subprocess.TimeoutExpired:
+                rc, se = -9, b"timeout (the tool never read the key from the pipe)"
+            if th is not None:
+                # release a feeder that nobody read from
+                try:
+                    fd = os.open(fifo, os.O_RDONLY | os.O_NONBLOCK)
+                    time.sleep(0.2)
+                    try:
+                        os.read(fd, 4096)
+                    except OSError:
+                        pass
+                    os.close(fd)
+                except OSError:
+                    pass
+                th.join(timeout=2)
+            extra += 1
+            dist["key-via:" + how] += 1
+            outs[how] = (rc, open(outp, "rb").read() if os.path.exists(outp) else None)
+        ref = outs["regular"]
+        if ref[0] != 0 or not ref[1]:
+            viol.append({"site": "cli:encrypt-run-failed", "detail": "exit %d" % ref[0], "input": open(inp).read()[:200]})
+        else:
+            for how, (rc, data) in outs.items():
+                if rc == 0 and data != ref[1]:
+                    viol.append({"site": "nondeterministic:key-via-" + how, "detail": "the same key given as a %s: exit 0 but the ciphertexts differ from those of the run that read it from a regular file (another key was used)" % how,
+                                 "input": open(inp).read()[:300], "cli_flags": ["redact", "in.log", "-o", "out", "--encrypt", "--encryptionKeyFile", "<" + how + ">"]})
+            if open(reg, "rb").read() != base64.b64encode(HARNESS_KEY):
+                viol.append({"site": "key-file-changed", "detail": "the key file was modified by a run that used it", "input": ""})
+    finally:
+        shutil.rmtree(work, ignore_errors=True)
+    return result(viol, 3 * len(trip) + len(ops) + extra, dist["ciphertext"], "separate CLI runs with one key reaching the tool as a regular file / symbolic link / through a symlinked directory / FIFO: same ciphertexts or a failure; grammar lines with repeated literals under placeholder mode, encrypt mode (real AES-SIV key) and encrypt mode with unusable 10-byte key material; leaf-wise: equal, or placeholder in one and a ciphertext decrypting to the input leaf in the other; equal plaintexts <-> equal ciphertexts across lines and processes; distinct_nontrivial = ciphertext leaves decrypted and compared",
                   dist, [{"line": trip[0][0].text[:300]}])
 
 
@@ -1966,7 +2158,7 @@ def atlas_payload(rng, host_i, nlines):
     return b"\n".join(out) + (b"\n" if out and rng.chance(3, 4) else b"")
 
 
-def run_atlas(sc, work, flags=(), dates=None, key_via="flag", pub="pubkey", priv="privkey", out_block=None, timeout=90):
+def run_atlas(sc, work, flags=(), dates=None, key_via="flag", pub="pubkey", priv="privkey", out_block=None, timeout=90, prefill=None, tmp_spelling=None, pre=None):
     """run the real CLI in Atlas mode against a fake endpoint; returns dict with rc, stdout, stderr, log, tmp listing, outputs"""
     import fakeatlas, tempfile
     sc.public, sc.private = pub, priv.strip()
@@ -1979,8 +2171,14 @@ def run_atlas(sc, work, flags=(), dates=None, key_via="flag", pub="pubkey", priv
     out = os.path.join(outd, "mongod.redacted.log")
     if out_block is not None:
         os.mkdir(out + ".%d" % out_block)          # a directory where <out>.<i> should be created
-    args = ["redact", "--atlasProjectId", "proj1", "--atlasClusterName", "clu1", "-o", out] + list(flags)
-    env = {"VERIF_ATLAS_ENDPOINT": fake.url, "TMPDIR": tmpd, "ATLAS_PUBLIC_KEY": "", "ATLAS_PRIVATE_KEY": ""}
+    for i, blob in (prefill or {}).items():        # output files left by an earlier run into the same --outputFile
+        open(out + ".%d" % i, "wb").write(blob)
+    if pre:
+        pre(outd)
+    args = ["redact", "--atlasProjectId", "proj1", "--atlasClusterName", "clu1", "-o", out] + [a.replace("@OUTD@", outd) for a in flags]
+    tmp_env = {None: tmpd, "slash": tmpd + "/", "dslash": os.path.dirname(tmpd) + "//" + os.path.basename(tmpd), "dot": os.path.dirname(tmpd) + "/./" + os.path.basename(tmpd),
+               "dotdot": tmpd + "/../" + os.path.basename(tmpd)}[tmp_spelling]
+    env = {"VERIF_ATLAS_ENDPOINT": fake.url, "TMPDIR": tmp_env, "ATLAS_PUBLIC_KEY": "", "ATLAS_PRIVATE_KEY": ""}
     if key_via == "flag":
         args += ["--atlasPublicKey", pub, "--atlasPrivateKey", priv]
     else:
@@ -2091,16 +2289,35 @@ def oracle_c16(tables, seed, tier, deep):
                         viol.append(dict(rep, site="atlas:extra-output", detail="unexpected output files %r" % extra))
                     if r["tmp_left"]:
                         viol.append(dict(rep, site="atlas:tmp-left", detail="temporary files left: %r" % sorted(r["tmp_left"])))
+        # a second run into the same --outputFile: longer files of an earlier run are lying there
+        hs = ["h0.example.net:27017", "h1.example.net:27017"]
+        plains = [atlas_payload(rng, i, 2 + i) for i in range(2)]
+        sc = fakeatlas.Scenario(hs, [fakeatlas.gz(p) for p in plains])
+        stale = b"".join(b'{"stale":"line %d of an earlier, longer run"}\n' % j for j in range(400))
+        r = run_atlas(sc, work, prefill={0: stale, 1: stale[:37]})
+        n += 1
+        rep = {"cfg": "-", "cli_flags": r["args"][1:], "input": "2 hosts; <out>.0 and <out>.1 exist already (left by an earlier run, %d and 37 bytes)" % len(stale)}
+        base = os.path.basename(r["out"])
+        for i, plain in enumerate(plains):
+            rc2, exp = expected_redaction(plain, [], work)
+            got = r["outputs"].get("%s.%d" % (base, i))
+            if r["rc"] != 0 or got != exp:
+                viol.append(dict(rep, site="atlas:output-differs:existing-output-file", detail="exit %d; %s.%d is %s bytes, the redaction of host %d's log is %d bytes%s" % (
+                    r["rc"], base, i, "no" if got is None else len(got), i, len(exp), "; it ends with the earlier run's content" if got and got.endswith(stale[-40:]) else "")))
         # a failing host: the run must fail, and whatever <out>.<i> exists must still be host i's redaction (no shifting)
-        for k in ([0, 1, 2] if big else [1]):
+        hostfaults = [(k, ("http", 500)) for k in ([0, 1, 2] if big else [1])] + [(1, ("cut", -2)), (0, ("cut", -1)), (2, ("cut", 0)), (1, ("cut", -9))]
+        for k, flt in hostfaults:
             hs = ["h0.example.net:27017", "h1.example.net:27017", "h2.example.net:27017"]
             plains = [atlas_payload(rng, i, 3 + i) for i in range(3)]
-            sc = fakeatlas.Scenario(hs, [fakeatlas.gz(p) for p in plains], faults={k: ("http", 500)})
+            gzs = [fakeatlas.gz(p) for p in plains]
+            if flt[0] == "cut":
+                flt = ("cut", {-2: len(gzs[k]) // 2, -1: len(gzs[k]) - 1, 0: 0, -9: len(gzs[k]) - 9}[flt[1]])
+            sc = fakeatlas.Scenario(hs, gzs, faults={k: flt})
             r = run_atlas(sc, work)
             n += 1
-            rep = {"cfg": "-", "cli_flags": r["args"][1:], "input": "3 hosts, host %d answers 500" % k}
+            rep = {"cfg": "-", "cli_flags": r["args"][1:], "input": "3 hosts, host %d: %r" % (k, flt)}
             if r["rc"] == 0:
-                viol.append(dict(rep, site="atlas:failed-host-exit0", detail="the download of host %d failed but the run exits 0" % k))
+                viol.append(dict(rep, site="atlas:failed-host-exit0", detail="the download of host %d failed (%r) but the run exits 0" % (k, flt)))
             base = os.path.basename(r["out"])
             for i, plain in enumerate(plains):
                 got = r["outputs"].get("%s.%d" % (base, i))
@@ -2114,7 +2331,7 @@ def oracle_c16(tables, seed, tier, deep):
                   dist, [{"hosts": 3}])
 
 
-ATLAS_FAULTS = ["cluster-http500", "cluster-reset", "cluster-http401", "host-http500", "host-http403", "host-http404", "host-reset", "host-cut0", "host-cut", "not-gzip", "long-line", "out-blocked", "srv", "none"]
+ATLAS_FAULTS = ["enc-badkey", "enc-shortkey", "enc-key-unwritable", "enc-key-is-dir", "cluster-http500", "cluster-reset", "cluster-http401", "host-http500", "host-http403", "host-http404", "host-reset", "host-cut0", "host-cut", "not-gzip", "long-line", "out-blocked", "srv", "none"]
 
 
 def oracle_c17(tables, seed, tier, deep):
@@ -2155,11 +2372,24 @@ def oracle_c17(tables, seed, tier, deep):
                         out_block = k
                     elif fault == "srv":
                         srv = True
+                    flags, pre = [], None
+                    if fault.startswith("enc-"):
+                        flags = ["--encrypt", "--encryptionKeyFile", "@OUTD@/k/the.key"]
+                        if fault == "enc-badkey":
+                            pre = lambda od: (os.mkdir(od + "/k"), open(od + "/k/the.key", "w").write("this is not base64 !!!"))
+                        elif fault == "enc-shortkey":
+                            pre = lambda od: (os.mkdir(od + "/k"), open(od + "/k/the.key", "w").write(base64.b64encode(b"0123456789abcdef").decode()))
+                        elif fault == "enc-key-is-dir":
+                            pre = lambda od: os.makedirs(od + "/k/the.key")
+                    # the temporary directory may be spelled non-canonically in the environment
+                    spelling = [None, "slash", "dslash", "dot", "dotdot"][(n + k) % 5] if fault in ("none", "host-http500", "host-cut", "not-gzip", "out-blocked") else None
                     sc = fakeatlas.Scenario(hs, payloads, faults=faults, cluster_fault=cf, srv=srv)
-                    r = run_atlas(sc, work, out_block=out_block)
+                    r = run_atlas(sc, work, out_block=out_block, flags=flags, pre=pre, tmp_spelling=spelling)
                     n += 1
                     dist[fault] += 1
-                    rep = {"cfg": "-", "cli_flags": r["args"][1:], "input": "hosts=%d fault=%s at %d" % (nh, fault, k)}
+                    if spelling:
+                        dist["TMPDIR:" + spelling] += 1
+                    rep = {"cfg": "-", "cli_flags": r["args"][1:], "input": "hosts=%d fault=%s at %d TMPDIR spelling=%s" % (nh, fault, k, spelling)}
                     if r["tmp_left"]:
                         viol.append(dict(rep, site="tmp-left:" + fault, detail="after fault %s at host/file %d of %d (exit %d) the temporary directory still holds %r" % (fault, k, nh, r["rc"], sorted(r["tmp_left"]))))
                     if fault != "none" and r["rc"] == 0:
@@ -2170,7 +2400,7 @@ def oracle_c17(tables, seed, tier, deep):
                         viol.append(dict(rep, site="panic:" + fault, detail=r["stderr"][-300:].decode("utf-8", "replace")))
     finally:
         shutil.rmtree(work, ignore_errors=True)
-    return result(viol, n, n, "whole program against the fake endpoint, private TMPDIR listed after every run: cluster lookup failing (status / reset / 401), the k-th host failing (500 / 403 / 404 / reset / body cut at 0 and mid-way), a payload that is not gzip, a payload with an over-long line, <out>.<k> not creatable, SRV connection string, and success; for 1..4 hosts and every k",
+    return result(viol, n, n, "whole program against the fake endpoint, private TMPDIR listed after every run: cluster lookup failing (status / reset / 401), the k-th host failing (500 / 403 / 404 / reset / body cut at 0 and mid-way), a payload that is not gzip, a payload with an over-long line, <out>.<k> not creatable, --encrypt with an unusable / unwritable key file, SRV connection string, and success; TMPDIR spelled canonically, with a trailing slash, a doubled slash, '/./' and '/../'; for 1..4 hosts and every k",
                   dist, [{"faults": ATLAS_FAULTS}])
 
 
@@ -2227,9 +2457,34 @@ def oracle_c20(tables, seed, tier, deep):
                         viol.append(dict(rep, site="key-leak:unsolicited-authorization", detail="an Authorization header was sent although the server never sent a challenge"))
                 if auth == "basic" and any(e["authed"] for e in r["log"]):
                     viol.append(dict(rep, site="key-leak:basic", detail="credentials were sent in answer to a Basic challenge"))
+        # invocations that end in usage / help / an argument error, with the key pair in the environment or on the command line
+        atlas_args = ["--atlasProjectId", "proj1", "--atlasClusterName", "clu1", "-o", "out.log"]
+        usage_cases = [["redact", "--help"], ["redact", "-h"], ["help", "redact"], ["--help"], ["redact"] + atlas_args + ["--atlasLogStartDate", "yesterday", "--atlasLogEndDate", "today"],
+                       ["redact"] + atlas_args + ["--nosuchflag"], ["redact", "a.log", "b.log"] + atlas_args, ["redact"] + atlas_args + ["--atlasLogStartDate", "1700000000"],
+                       ["redact"] + atlas_args[:2], ["redact", "--redactNumbers=maybe"] + atlas_args, ["nosuchcommand"], ["redact"] + atlas_args + ["--replacement"], ["version"], ["completion", "bash"]]
+        for ki, priv in enumerate(keys[:2] if not big else keys):
+            for ui, ua in enumerate(usage_cases):
+                for via in ("env", "flag"):
+                    d = tempfile.mkdtemp(prefix="use_", dir=work)
+                    env = {"VERIF_ATLAS_ENDPOINT": "http://127.0.0.1:9", "TMPDIR": d, "ATLAS_PUBLIC_KEY": "", "ATLAS_PRIVATE_KEY": ""}
+                    args = list(ua)
+                    if via == "env":
+                        env["ATLAS_PUBLIC_KEY"], env["ATLAS_PRIVATE_KEY"] = "zqpublickey", priv
+                    elif args[0] == "redact" and "--replacement" not in args[-1:]:
+                        args += ["--atlasPublicKey", "zqpublickey", "--atlasPrivateKey", priv]
+                    else:
+                        continue
+                    rc, so, se = run_cli(args, env=env, cwd=d, timeout=30)
+                    n += 1
+                    dist["usage/help/argument-error"] += 1
+                    for where, blob in (("stdout", so), ("stderr", se)):
+                        for ename, eb in key_encodings(priv).items():
+                            if eb and eb in blob:
+                                viol.append({"site": "key-leak:%s:%s:usage" % (where, ename), "cfg": "-", "cli_flags": [a if a != priv else "<PRIVATE KEY>" for a in args], "input": "key via %s; %r" % (via, ua),
+                                             "detail": "the private key (%s) is printed on %s by an invocation that ends in usage / help / an argument error (exit %d)" % (ename, where, rc)})
     finally:
         shutil.rmtree(work, ignore_errors=True)
-    return result(viol, n, n, "whole program against the fake endpoint: digest challenge / no challenge / Basic challenge / 401 after authentication, bodies that echo the request, HTTP errors, cut bodies, connection resets; private keys with URL- and shell-special characters and trailing white space, given by flag or environment; every captured artefact (each request line + headers, stdout, stderr, output files, temporary files) searched for the key verbatim, trimmed, URL-encoded, base64 / base64url, hex, and as a Basic user:password pair",
+    return result(viol, n, n, "whole program against the fake endpoint: digest challenge / no challenge / Basic challenge / 401 after authentication, bodies that echo the request, HTTP errors, cut bodies, connection resets; private keys with URL- and shell-special characters and trailing white space, given by flag or environment; every captured artefact (each request line + headers, stdout, stderr, output files, temporary files) searched for the key verbatim, trimmed, URL-encoded, base64 / base64url, hex, and as a Basic user:password pair; plus invocations that end in usage / help / an argument error (bad date, unknown flag, two positional arguments, missing value, --help) with the key in the environment or on the command line, stdout and stderr searched",
                   dist, [{"scenarios": len(scen), "keys": len(keys)}])
 
 
@@ -2270,6 +2525,15 @@ def cli_wiring(seed, n_cases, want_enc=None):
         for ci, (c, enc) in enumerate(combos):
             outp = os.path.join(work, "out%d.log" % ci)
             args = ["redact", inp, "-o", outp] + c.cli() + (["--encrypt", "--encryptionKeyFile", key] if enc else [])
+            # ambient state that must not matter: a key file left by an earlier --encrypt run at the default path of the
+            # working directory, or a key file named on the command line, WITHOUT --encrypt
+            ambient = os.path.join(work, "anonymongo.enc.key")
+            if os.path.exists(ambient):
+                os.remove(ambient)
+            if not enc and ci % 3 == 1:
+                open(ambient, "wb").write(base64.b64encode(HARNESS_KEY))
+            if not enc and ci % 3 == 2:
+                args += ["--encryptionKeyFile", key]
             rc, so, se = run_cli(args, cwd=work)
             n += 1
             c2 = Cfg(c.repl, c.n, c.b, c.i, c.w, c.eager, c.re, 3 if enc else 0)
@@ -2509,3 +2773,45 @@ def with_history(pid, fn):
 for _pid in HISTORY_SCOPE:
     if _pid in ORACLES:
         ORACLES[_pid] = with_history(_pid, ORACLES[_pid])
+
+
+# ------------------------------------------------------------------------------------------- soak (one long run, two lexical classes)
+
+_SOAK = {}
+
+
+def soak(enc, big):
+    key = (enc, big)
+    if key not in _SOAK:
+        cfg = Cfg(enc=3) if enc else Cfg()
+        n = (600000 if enc else 1200000) if big else 20000
+        r = go_exec([("s", ["soak", cfg.s(), str(n)])], timeout=1800).get("s", "noanswer")
+        _SOAK[key] = (cfg, n, r)
+    return _SOAK[key]
+
+
+def with_soak(pid, fn, enc):
+    def wrapped(tables, seed, tier, deep):
+        r = fn(tables, seed, tier, deep)
+        cfg, n, res = soak(enc, tier == "thorough" or deep)
+        if not res.startswith("ok "):
+            f = res.split(" ")
+            v = {"site": "soak:value-treated-differently-late-in-a-long-run", "cfg": cfg.s(), "soak_n": n,
+                 "detail": "one process, %d one-value lines (ordinary strings order-NNNNNNN and e-mail addresses alice.NNNNNN@example.com alternating): %s" % (
+                     2 * n, ("line %s: value %r came out as %r, expected %r" % (f[1], unhx(f[2]), unhx(f[3])[:120], unhx(f[4])[:120])) if len(f) >= 5 and f[0] == "bad" else res[:200]),
+                 "input": unhx(f[2]) if len(f) >= 5 and f[0] == "bad" else ""}
+            r["violations"] = result(r["violations"] + [v], 0, 0, "", {}, [])["violations"]
+            r["stats"]["summary"]["violating_sites"] = len(r["violations"])
+        r["stats"]["evaluations"] += 2 * n
+        r["stats"]["summary"]["evaluations"] = r["stats"]["evaluations"]
+        r["stats"]["summary"]["soak_lines"] = 2 * n
+        r["stats"]["rule"] += "; plus a soak: %d one-value lines of two lexical classes through the redactor in one process (%s), every value must be treated like the first of its class%s" % (
+            2 * n, "encrypt mode" if enc else "placeholder mode", " and decrypt to itself, ciphertexts pairwise distinct" if enc else "")
+        return r
+    return wrapped
+
+
+ORACLES["C02"] = with_soak("C02", with_wiring(ORACLES["C02"], want_enc=False), False)
+ORACLES["C05"] = with_soak("C05", ORACLES["C05"], False)
+ORACLES["C09"] = with_soak("C09", ORACLES["C09"], True)
+ORACLES["C10"] = with_soak("C10", ORACLES["C10"], True)
